@@ -24,7 +24,14 @@ func (d *Comma) Evaluation(
 ) (err error) {
 
 	var tArray []*base.T
-	tArray = append(tArray, p.GetLastEvaluatedTPointer().(*base.T))
+
+	// nothing has been evaluated yet when the statement starts with ","
+	firstT, ok := p.GetLastEvaluatedTPointer().(*base.T)
+	if !ok {
+		firstT = base.MakeUnknown()
+	}
+
+	tArray = append(tArray, firstT)
 
 	for {
 		nextT, err := p.Read()
@@ -53,7 +60,12 @@ func (d *Comma) Evaluation(
 			return err
 		}
 
-		tArray = append(tArray, p.GetLastEvaluatedTPointer().(*base.T))
+		nextElementT, ok := p.GetLastEvaluatedTPointer().(*base.T)
+		if !ok {
+			nextElementT = base.MakeUnknown()
+		}
+
+		tArray = append(tArray, nextElementT)
 
 		nextT, err = p.Read()
 		if err != nil {
